@@ -1475,7 +1475,7 @@ func c20Directed() []LCase {
 	// type list, a type list of several, no type, contradictory bounds, an unknown format
 	for _, sch := range []string{`{"type":[]}`, `{"type":[],"nullable":true}`, `{"type":["string","integer"]}`, `{"type":["null"]}`, `{}`, `{"type":"string","minLength":5,"maxLength":1}`,
 		`{"type":"integer","format":"nope"}`, `{"type":"array","items":{"type":[]}}`, `{"type":"object","properties":{"p":{"type":[]}},"additionalProperties":{"type":[]}}`,
-		`{"oneOf":[{"type":[]},{"type":[]}]}`, `{"not":{"type":[]}}`, `{"enum":[]}`, `{"type":"string","pattern":""}`} {
+		`{"oneOf":[{"type":[]},{"type":[]}]}`, `{"not":{"type":[]}}`, `{"enum":[]}`, `{"type":"string","pattern":""}`, `{"pattern":"("}`, `{"pattern":"(?!x)a","minLength":1}`} {
 		for _, val := range []string{`1`, `"x"`, `null`, `[1,"x"]`, `{"p":1,"q":"x"}`, `true`} {
 			withVal := sch[:len(sch)-1]
 			if withVal != "{" {
